@@ -250,13 +250,30 @@ URL_WORD = ['url', 'URL', 'Url', 'uRl']
 URL_WORD_ESC = ['u\\rl', '\\55 rl', 'ur\\6c ', '\\75\\72\\6c', 'U\\R\\L', 'u\\000072l', '\\u\\r\\l']
 
 
+def spell_letters(rnd, word):
+    """every letter plain (either case), as a hex escape (leading zeros, either digit case, any terminator incl. CR LF, or
+    none: the next character is no hex digit) or as a literal escape"""
+    out = []
+    for ch in word:
+        r = rnd.random()
+        c = ch.upper() if rnd.random() < 0.3 else ch
+        if r < 0.5:
+            out.append(c)
+        elif r < 0.85:
+            h = '%x' % ord(c)
+            h = '0' * rnd.randint(0, 6 - len(h)) + (h.upper() if rnd.random() < 0.3 else h)
+            out.append('\\' + h + rnd.choice(TERMS + ['', '']))
+        else:
+            out.append('\\' + c)
+    return ''.join(out)
+
+
 def lex_uri(rnd, esc):
-    word = rnd.choice(URL_WORD + (URL_WORD_ESC if esc else []))
+    word = rnd.choice(URL_WORD + (URL_WORD_ESC + [spell_letters(rnd, 'url') for _ in range(6)] if esc else []))
     w1 = rnd.choice(['', '', ' ', '\n', '\t '])
     w2 = rnd.choice(['', '', ' ', '\r\n'])
     # value of the head: hex escapes resolved, literal escapes kept
-    head_val = word.replace('\\55 ', 'U').replace('\\6c ', 'l').replace('\\75', 'u').replace('\\72', 'r') \
-        .replace('\\6c', 'l').replace('\\000072', 'r')
+    head_val = _hex_only(word)
     if rnd.random() < 0.5:
         _, stext, _, sval = lex_string(rnd, esc)
         # inside url() the escaped newline is NOT removed (cleanstring applies to STRING/INVALID only)
@@ -300,6 +317,11 @@ def lex_urange(rnd, esc):
     s = u + '+' + a
     if rnd.random() < 0.4:
         s += '-' + ''.join(rnd.choice(HEX) for _ in range(rnd.randint(1, 6)))
+    if esc and rnd.random() < 0.25:
+        # the u written as an escape (hex with any terminator, or literal)
+        w = spell_letters(rnd, u)
+        if w != u:
+            return ('urange', w + s[1:], 'UNICODE-RANGE', _hex_only(w) + s[1:])
     return ('urange', s, 'UNICODE-RANGE', s)
 
 
